@@ -195,6 +195,8 @@ class FuncUnit(Unit):
                 break
             samples.append(vals)
             args = native_args(k, vals) if f is not None else None
+            import copy as _copy
+            before = _copy.deepcopy(args) if args is not None else None
             xfab.CHECKS.activated = self.checks_activated
             try:
                 res = ('return', f(*args) if f is not None else k.native_call(*vals))
@@ -202,6 +204,13 @@ class FuncUnit(Unit):
                 res = ('raise', e)
             finally:
                 xfab.CHECKS.activated = True
+            # frame: array arguments come back unchanged
+            if args is not None:
+                for ai, (x0, x1) in enumerate(zip(before, args)):
+                    if isinstance(x1, np.ndarray) and ai not in getattr(k, 'modifies', ()):
+                        if x0.shape != x1.shape or not np.array_equal(x0, x1, equal_nan=True):
+                            nat['failures'].append({'clause': 'frame.argument_%d_not_modified' % ai, 'inputs': _jsonable(vals),
+                                                    'detail': 'argument %d was modified in place' % ai})
             # (b) runtime contract
             nat['samples'] += 1
             if res[0] == 'return':
@@ -410,12 +419,22 @@ class BoundedUnit(Unit):
         rng = random.Random(seed)
         fails = []
         done = 0
+        root = os.path.realpath(os.environ.get('XFAB_SRC', '/repo'))
         for i in range(n):
-            r = self.fn(rng)
+            try:
+                r = self.fn(rng)
+            except Exception as e:
+                # an exception raised by (or below) the code under test on an input the statement covers is a failing
+                # sample; one raised by the checker's own code is a checker error
+                frames = traceback.extract_tb(e.__traceback__)
+                if not any(os.path.realpath(fr.filename).startswith(root + os.sep) for fr in frames):
+                    raise
+                r = {'raised': repr(e), 'sample_index': i, 'seed': seed,
+                     'traceback': ''.join(traceback.format_list([fr for fr in frames if os.path.realpath(fr.filename).startswith(root + os.sep)][-3:]))}
             done += 1
             if r is not None:
                 fails.append(_jsonable(r))
-                if len(fails) >= 200:
+                if len(fails) >= 5000:
                     break
         return {'unit': self.label(), 'functions': [], 'obligations': [], 'notes': [], 'validation': None,
                 'native': None, 'bounded': {'name': self.name, 'what': self.what, 'samples': done,
